@@ -13,10 +13,10 @@ CONSTANTS
   ZDCode = {30309,120703,3003705}
   Delivery = "by_prior"
   Passes = "user_table"
-  QNum = {0,7,11,15,112,3012}
+  QNum = {0,7,15,1012}
   QShift = 12
-  QDen = {1,4}
-  ENum = {0,6,12,14}
+  QDen = {4}
+  ENum = {0,6,14}
   EShift = 12
   SNum = {3}
   SDen = {4}
@@ -24,7 +24,8 @@ CONSTANTS
   Hows = {"direct","text"}
   Depth = 7
   Export = TRUE
-  SetWeight = 3
+  SetWeight = 5
+  RareWeight = 60
   Setter = "rebuilds"
 INVARIANT ObjectInv
 CONSTRAINT Bound
